@@ -187,6 +187,25 @@ func Mutations(s []byte, ins []byte) [][]byte {
 	return out
 }
 
+// TruncDel returns every proper truncation and every single-byte deletion of s (the first part of Mutations).
+func TruncDel(s []byte) [][]byte {
+	seen := map[string]bool{string(s): true}
+	var out [][]byte
+	add := func(b []byte) {
+		if !seen[string(b)] {
+			seen[string(b)] = true
+			out = append(out, b)
+		}
+	}
+	for i := 0; i < len(s); i++ {
+		add(append([]byte(nil), s[:i]...))
+	}
+	for i := 0; i < len(s); i++ {
+		add(append(append([]byte(nil), s[:i]...), s[i+1:]...))
+	}
+	return out
+}
+
 // NumRun is a maximal run of ASCII digits of a stream that is a count, a length or an index according to
 // the grammar: it follows one of the tags a m s b o c r i l, or it precedes '{' or '"'.
 type NumRun struct {
